@@ -1298,6 +1298,23 @@ impl<'a> World<'a> {
                 let fmt = |m: &BTreeMap<ChitchatId, u64>| m.iter().map(|(id, v)| format!("{}@{v}", id.node_id)).collect::<Vec<_>>().join(",");
                 return Err(fail(mon, "watch-channel-stale", format!("after an evaluation on n{slot} the watch channel lists [{}] but the live members satisfying the predicate are [{}]", fmt(&published), fmt(&expected))).into());
             }
+            // The watch *stream* must hand out the same value as the watcher (checked whenever the
+            // membership view changed; building a stream is comparatively expensive).
+            if changed {
+                use tokio_stream::Stream;
+                let mut stream = Box::pin(node.chitchat.live_nodes_watch_stream());
+                let waker = noop_waker();
+                let mut cx = std::task::Context::from_waker(&waker);
+                match stream.as_mut().poll_next(&mut cx) {
+                    std::task::Poll::Ready(Some(v)) => {
+                        let streamed: BTreeMap<ChitchatId, u64> = v.iter().map(|(id, ns)| (id.clone(), ns.max_version())).collect();
+                        if streamed != expected {
+                            return Err(fail(mon, "watch-stream-differs", format!("after an evaluation on n{slot} live_nodes_watch_stream() first yields {} members but {} live members satisfy the predicate", streamed.len(), expected.len())).into());
+                        }
+                    }
+                    _ => return Err(fail(mon, "watch-stream-empty", format!("live_nodes_watch_stream() on n{slot} does not yield the current value")).into()),
+                }
+            }
             if changed && node.prev_eval.is_some() && !early_rx.has_changed().unwrap_or(false) {
                 return Err(fail(mon, "no-publication", format!("live set / max versions changed on n{slot} but nothing was published")).into());
             }
@@ -1552,6 +1569,19 @@ impl<'a> World<'a> {
         }
         Ok(())
     }
+}
+
+fn noop_waker() -> std::task::Waker {
+    use std::task::{RawWaker, RawWakerVTable, Waker};
+    fn raw() -> RawWaker {
+        fn no(_: *const ()) {}
+        fn clone(_: *const ()) -> RawWaker {
+            raw()
+        }
+        static VT: RawWakerVTable = RawWakerVTable::new(clone, no, no, no);
+        RawWaker::new(std::ptr::null(), &VT)
+    }
+    unsafe { Waker::from_raw(raw()) }
 }
 
 fn msg_kind(m: &WMsg) -> &'static str {
